@@ -13,6 +13,17 @@ import Mdsort.Proofs.EvalPFail
 `Model.execP` transcribes `exec()` (util.c): open /dev/null unless a descriptor is given, fork,
 waitpid; there is no shell anywhere on the path (the child is `dup2; execvp`, outside the model).
 `runOracle` lets every call return an ARBITRARY result.
+
+What the model can and cannot say (audit note): the call alphabet has ONE constructor `Call.fork` without
+arguments - neither the argument vector nor the descriptor that becomes the child's standard input is a
+parameter of it, and the child (`dup2(fdin, 0); execvp(argv[0], argv); _exit(127)`) is outside the model.
+So the `C13_argv*` theorems are statements about the field `Match.argv` that `match_interpolate` fills
+(what `matches_exec` later hands to `exec()`), "the child's standard input is `s`" means "the call issued
+just before `fork` is the `open("/dev/null")` / the `lseek(s, 0)` on `s`", and "inherits no descriptor" means
+"every descriptor the RUN created and has not released at a `fork` was created by a close-on-exec form"
+(descriptors 0, 1, 2 and anything else the process was started with are outside the table).  That the
+vector reaches `execvp` unchanged, without a shell, is tied to util.c by the correspondence run
+(`harness/shim/exechelper.c` records argv, stdin bytes and /proc/self/fd of the real child; tools/props/c13.py), not by a theorem.
 -/
 
 namespace Mdsort.Props
@@ -27,12 +38,32 @@ theorem C13_argv (macros : Option (List (Bytes × Bytes))) (ml : MatchList) (i :
     ∀ (k : Nat) (s : Bytes), mh.strings[k]? = some s → ∃ v, interpolate (ml.take i) macros s = some v ∧ mh'.argv[k]? = some (cstr v) :=
   Proofs.argv_one_per_string macros ml i mh mh' msgs upd hty h
 
-/-- The value of `exec()` is determined by what fork and waitpid report: 0 for a clean exit, the
+/-- The value of `exec()` lies in the range of `Model.execValue`: 0 for a clean exit, the
 exit code for 1..126 and 128.., -1 for 127, 128 + signal for a signalled child, -1 when /dev/null,
-fork or waitpid fail. -/
+fork or waitpid fail.  (As stated the three witnesses are NOT tied to the results the oracle gave - the
+statement only bounds the value; which results are consumed is `C13_status_exact` below.) -/
 theorem C13_status (fdin : Option Handle) (orc : Nat → Call → Res) :
     ∃ devnullOk forkRes waitRes, (runOracle orc (execP fdin) 0 []).1 = Model.execValue devnullOk forkRes waitRes :=
   Proofs.execP_value fdin orc
+
+/-- **The value of `exec()` IS `execValue` of the results of its own calls**, for arbitrary results: without a
+descriptor (`fdin = -1`) of call 0 (`open("/dev/null")` succeeded or not), call 1 (`fork`) and call 2 (`waitpid`); with a
+descriptor of call 0 (`fork`) and call 1 (`waitpid`).  Nothing else (no other call, no state) enters the value. -/
+theorem C13_status_exact (orc : Nat → Call → Res) :
+    (runOracle orc (execP none) 0 []).1 =
+      Model.execValue (match orc 0 (.openPath (ofString "/dev/null")) with | .ok _ => true | _ => false)
+        (orc 1 .fork) (orc 2 .waitpid) ∧
+    ∀ fd, (runOracle orc (execP (some fd)) 0 []).1 = Model.execValue true (orc 0 .fork) (orc 1 .waitpid) := by
+  refine ⟨Proofs.execP_none_value orc, fun fd => ?_⟩
+  rw [Proofs.Own.runOracle_eq, Proofs.Own.execP_run]
+
+/-- Non-vacuity of `C13_status_exact`: /dev/null opened, child 7 forked, wait status `3 * 256` (exit code 3) gives 3;
+a failing `fork` gives -1; with a descriptor handed in, SIGKILL (wait status 9) gives 137. -/
+example :
+    (runOracle (fun i _ => [.ok 6, .ok 7, .ok (3 * 256)].getD i (.ok 0)) (execP none) 0 []).1 = 3 ∧
+    (runOracle (fun i _ => [.ok 6, .err "EAGAIN"].getD i (.ok 0)) (execP none) 0 []).1 = -1 ∧
+    (runOracle (fun i _ => [.ok 7, .ok 9].getD i (.ok 0)) (execP (some 5)) 0 []).1 = 137 := by
+  refine ⟨?_, ?_, ?_⟩ <;> decide +kernel
 
 /-- A non-zero value of `exec()` is an error of the exec action ... -/
 theorem C13_exec_failure_is_error (env : PEnv) (mh : Match) (st : ExecSt) (orc : Nat → Call → Res)
@@ -48,6 +79,22 @@ theorem C13_error_stops_actions (env : PEnv) (mh : Match) (rest rest' : MatchLis
     (runOracle orc (matchesExec env (mh :: rest) st) 0 []).1.2 = true ∧
     (runOracle orc (matchesExec env (mh :: rest) st) 0 []).2 = (runOracle orc (matchesExec env (mh :: rest') st) 0 []).2 :=
   Proofs.error_stops_list env mh rest rest' st orc he
+
+/-- Non-vacuity of `C13_exec_failure_is_error` and `C13_error_stops_actions`: an `exec` entry without `stdin` whose
+child exits with status 3 (calls answered: /dev/null = 6, pid 7, wait status `3 * 256`).  The hypotheses hold, so the
+entry is an error, and the calls of the list are the same whether a `label` entry or nothing follows. -/
+example :
+    let orc : Nat → Call → Res := fun i _ => [.ok 6, .ok 7, .ok (3 * 256)].getD i (.ok 0)
+    let mh : Match := { ty := .exec, lno := 1, part := 0, argv := [[120]] }
+    mh.ty = .exec ∧ mh.execStdin = false ∧ (runOracle orc (execP none) 0 []).1 ≠ 0 ∧
+    (runOracle orc (execOne Proofs.ExecSeq.exEnv mh Proofs.ExecSeq.exSt) 0 []).1.2 = true ∧
+    (runOracle orc (matchesExec Proofs.ExecSeq.exEnv [mh, Proofs.ExecSeq.exLabel] Proofs.ExecSeq.exSt) 0 []).2 =
+      (runOracle orc (matchesExec Proofs.ExecSeq.exEnv [mh] Proofs.ExecSeq.exSt) 0 []).2 := by
+  intro orc mh
+  have hnz : (runOracle orc (execP none) 0 []).1 ≠ 0 := by decide +kernel
+  have he := C13_exec_failure_is_error Proofs.ExecSeq.exEnv mh Proofs.ExecSeq.exSt orc rfl rfl hnz
+  exact ⟨rfl, rfl, hnz, he,
+    (C13_error_stops_actions Proofs.ExecSeq.exEnv mh [Proofs.ExecSeq.exLabel] [] Proofs.ExecSeq.exSt orc he).2⟩
 
 /-! ## The status mapping, for every wait status
 
@@ -76,7 +123,9 @@ example :
     [15, 9, 11, 11 + 128, 6 + 128].map execStatus = [143, 137, 139, 139, 134] := by decide
 
 /-- A child whose `execvp` fails exits with `Model.execvpFailedStatus` = 127 whatever the reason (ENOENT, EACCES, ...):
-for the parent that is the fatal value -1, never a positive "ran and said no". -/
+for the parent that is the fatal value -1, never a positive "ran and said no".  (Both 127s - the `_exit(127)` of the
+child and the `error == 127` of the parent - are constants written by hand in `Model/Scripts.lean`, not regenerated from
+util.c: a change of either in the source is noticed by the correspondence run only, this statement stays true.) -/
 theorem C13_execvp_failure_is_fatal : execStatus (execvpFailedStatus * 256) = -1 ∧ Proofs.waitKind (execvpFailedStatus * 256) = .exited 127 := by
   decide
 
@@ -97,7 +146,10 @@ theorem C13_child_outcome (d : Bool) (f w : Res) :
 * it is an ERROR iff /dev/null could not be opened, `fork` failed, `waitpid` failed, or the child exited with 127 (what
   the child does when `execvp` fails);
 
-and in every case the match list is left as it was. -/
+and in every case the match list is left as it was.
+(Audit note: that the oracle `env.command` of the pure evaluator IS `exec()` on the interpolated vector is the
+hypothesis `hrc`; no model runs `execP` from inside `eval`, so this link is an assumption of the statement, tied to
+expr.c by the correspondence run only.  A child killed by a signal is "no match": observation O27.) -/
 theorem C13_command_status (env : Env) (root : Msg) (lno : Nat) (argv av : List Bytes) (part : Nat) (m : Msg) (st : St)
     (hav : argv.mapM (interpolate st.ml none) = some av)
     (d : Bool) (f w : Res) (hrc : env.command av = Model.execValue d f w) :
@@ -340,7 +392,10 @@ stream of the configuration file, no third directory. -/
 `fork` issued by a run of `main` - maildir mode or stdin mode, the `fork` of an `exec` action (whatever actions precede
 the exec, inside or outside an attachment block) as well as the `fork` of a `command` condition during the evaluation of the
 rules (`Model.evalP`: the table there is the directory stream of the maildir, the descriptor of the message and `/dev/null`,
-`Proofs.Own.fds_evalP`) - the descriptors the run has created and not released are exactly those `ForkFds` lists. -/
+`Proofs.Own.fds_evalP`) - the descriptors the run has created and not released are exactly those `ForkFds` lists.
+(Audit note: the table holds what the run itself created - descriptors 0, 1, 2 and anything else inherited at start-up are not
+in it.  The audit's other remark - that the fork of a `command` condition was not among the forks of `mainP` - described the
+model before package p4; it is now.) -/
 theorem C13_fd_hygiene (env : PEnv) (orc : EvalOracles) (ok : Bool) (conf : List ConfBlock) (files : Files) (input : Bytes)
     (orcl : Nat → Call → Res) (j : Nat) (r : Res)
     (h : (runOracle orcl (mainP env orc ok conf files input) 0 []).2[j]? = some (.fork, r)) :
